@@ -6,47 +6,217 @@ from . import core
 SENS = "aes,kuznyechik,serpent"  # crates whose code depends on the build configuration
 
 
-def std_cfgs(tier, full_profiles=("vdev",), sens_only=False):
-    """(Cfg, extra xplore args) list.  `full` builds carry every subject; others only the
-    configuration-sensitive crates (aes, kuznyechik, serpent)."""
+def Q(name, prof, feat, lite=False, crates=None):
+    return (Cfg(name, prof, feat, lite=lite), (["--crates", crates] if crates else []))
+
+
+def std_cfgs(tier, n0_crates=None, sens="aes,kuznyechik,serpent", aes_only_d=True, feat_only=False):
+    """(Cfg, extra xplore args) list.  The N0 build carries every subject; the other native configurations are
+    `lite` builds with only the configuration-sensitive crates (aes, kuznyechik, serpent)."""
     out = []
     if tier == "quick":
-        if not sens_only:
-            out.append((Cfg("N0", "vdev", True), []))
-        else:
-            out.append((Cfg("N0", "vdev", True), ["--crates", SENS]))
-        out.append((Cfg("N0d", "vdev", True), ["--crates", "aes"]))
-        out.append((Cfg("N1", "vrel", False, lite=True), []))
-        out.append((Cfg("N2", "vdev", True, lite=True), []))
+        out.append(Q("N0", "vdev", True, crates=n0_crates))
+        if "aes" in sens:
+            out.append(Q("N0d", "vdev", True, crates="aes"))
+        out.append(Q("N1", "vdev", True, lite=True, crates=sens))
+        out.append(Q("N2", "vdev" if feat_only else "vrel", feat_only, lite=True, crates=sens))
     else:
         for prof, feat in (("vdev", True), ("vrel", False)):
-            out.append((Cfg("N0", prof, feat), ["--crates", SENS] if sens_only else []))
-            out.append((Cfg("N0d", prof, feat), ["--crates", "aes"]))
-        for n in ("N1", "N2", "N3", "N4"):
-            for prof, feat in (("vdev", True), ("vrel", False)):
-                extra = ["--crates", "aes"] if n in ("N3", "N4") else []
-                out.append((Cfg(n, prof, feat, lite=True), extra))
+            if feat_only and not feat:
+                prof, feat = "vrel", True
+            out.append(Q("N0", prof, feat, crates=n0_crates))
+            if "aes" in sens:
+                out.append(Q("N0d", prof, feat, crates="aes"))
+            for n in ("N1", "N2"):
+                out.append(Q(n, prof, feat, lite=True, crates=sens))
+            if "aes" in sens:
+                for n in ("N3", "N4"):
+                    out.append(Q(n, prof, feat, lite=True, crates="aes"))
     return out
 
 
 def only_n0(tier):
     if tier == "quick":
-        return [(Cfg("N0", "vdev", True), [])]
-    return [(Cfg("N0", "vdev", True), []), (Cfg("N0", "vrel", False), [])]
+        return [Q("N0", "vdev", True)]
+    return [Q("N0", "vdev", True), Q("N0", "vrel", False)]
 
+
+def cfgs_c03(tier):
+    """Every native configuration with features on and off; all compared pairwise through N0."""
+    out = []
+    sens = "aes,kuznyechik,serpent"
+    names = ["N0", "N0d", "N1", "N2"] + (["N3", "N4"] if tier == "thorough" else [])
+    for n in names:
+        for prof, feat in ((("vdev", True), ("vrel", False)) if tier == "thorough" or n in ("N0",) else (("vdev", True),) if n != "N2" else (("vrel", False),)):
+            out.append(Q(n, prof, feat, lite=(n not in ("N0", "N0d")), crates=("aes" if n in ("N0d", "N3", "N4") else sens)))
+    return out
+
+
+def cfgs_c20(tier):
+    """Profile pairs: every configuration in vdev and vrel with the same features."""
+    out = []
+    for n in ["N0", "N0d", "N1", "N2"] + (["N3", "N4"] if tier == "thorough" else []):
+        for prof in ("vdev", "vrel"):
+            lite = n not in ("N0", "N0d")
+            out.append(Q(n, prof, True, lite=lite, crates=("aes" if n in ("N0d", "N3", "N4") else ("aes,kuznyechik,serpent" if lite else None))))
+    return out
+
+
+def _chunk_detail(cfg, name, tier):
+    import subprocess
+    r = subprocess.run([cfg.binary, "chunk", name, "--tier", tier], env=cfg.env(), capture_output=True, text=True)
+    if r.returncode != 0:
+        return None
+    return json.loads(r.stdout)
+
+
+def _compare_maps(pid, tier, a, b, what):
+    """a, b: (cfg, result). Returns violations for chunks whose hashes differ."""
+    (ca, ra), (cb, rb) = a, b
+    ma, mb = ra.get("extra", {}).get("chunks", {}), rb.get("extra", {}).get("chunks", {})
+    common = sorted(set(ma) & set(mb))
+    out = []
+    for name in common:
+        if ma[name] == mb[name]:
+            continue
+        if len(out) >= 6:
+            break
+        da, db = _chunk_detail(ca, name, tier), _chunk_detail(cb, name, tier)
+        first = None
+        if da is not None and db is not None:
+            for x, y in zip(da, db):
+                if x["obs"] != y["obs"]:
+                    first = (x, y)
+                    break
+        if first is None:
+            case = {"kind": "cross", "chunk": name, "config_a": ca.label, "config_b": cb.label}
+            exp, obs = f"chunk hash {ma[name]} in {ca.label}", f"chunk hash {mb[name]} in {cb.label} (detail runs agree: non-deterministic?)"
+        else:
+            x, y = first
+            case = {"kind": "cross", "chunk": name, "config_a": ca.label, "config_b": cb.label, "case": x["case"]}
+            exp, obs = f"{ca.label}: {x['obs']}", f"{cb.label}: {y['obs']}"
+        subj = name.split("/")[0] if not name.startswith("special/") else name.split("/")[1]
+        out.append(dict(property=pid, subject=subj, what=what, config=cb.label, case=case, expected=exp, observed=obs,
+                        note="same key and data give different results in two builds"))
+    return out, len(common)
+
+
+def post_c03(pid, tier, cfgs, results):
+    """Every configuration is compared with the first one (equality is transitive), chunk by chunk."""
+    viol, compared = [], 0
+    if not results:
+        return viol
+    base = results[0]
+    for other in results[1:]:
+        v, n = _compare_maps(pid, tier, base, other, "config-dependent-output")
+        viol += v
+        compared += n
+    POST_INFO["pairs_compared"] = len(results) - 1
+    POST_INFO["chunks_compared"] = compared
+    return viol
+
+
+def post_c20(pid, tier, cfgs, results):
+    viol, compared, pairs = [], 0, 0
+    by = {}
+    for cfg, r in results:
+        by.setdefault((cfg.name, cfg.feat, cfg.lite), {})[cfg.profile] = (cfg, r)
+    for k, d in by.items():
+        if "vdev" in d and "vrel" in d:
+            v, n = _compare_maps(pid, tier, d["vdev"], d["vrel"], "profile-dependent-output")
+            viol += v
+            compared += n
+            pairs += 1
+    POST_INFO["pairs_compared"] = pairs
+    POST_INFO["chunks_compared"] = compared
+    return viol
+
+
+POST_INFO = {}
+
+LEVEL_NOTE_DATA = "data values outside the declared alphabets (DESIGN §2.3) are not covered"
+ASSUME_STD = [LEVEL_NOTE_DATA,
+              "ARMv8/NEON back ends and fixslice32 are not reachable natively on this x86-64 host"]
+RULE_STAR = ("cases are enumerated by the star alphabets of DESIGN §2.3 (zero/ones/walking bits/lane boundaries/byte sweeps/dense family) "
+             "per (cipher type, accepted key length), deduplicated by the enumerator; ")
 
 TABLE = {
     "C01": dict(
-        level="exploration",
-        cfgs=std_cfgs,
-        rule=("cases = every (cipher type, construction pairing, accepted key length, key, block) of the star alphabets "
-              "(DESIGN §2.3) in every configuration, plus Threefish (key, tweak, block) triples through byte and u64 entry "
-              "points, BelT wide-block (length, data, key) triples and full block-domain sweeps of RC5-8 (and RC5-16 / "
-              "Speck32 in the thorough tier); each case checks D(E(b))==b and E(D(b))==b. Enumerators deduplicate, so "
-              "cases are distinct by construction; a case is non-trivial when E(b) != b (the permutation moved the block)."),
-        assumptions=["data values outside the declared alphabets are not covered",
-                     "ARMv8/NEON code runs over a software model of the intrinsics (shadow crates), not on hardware"],
-    ),
+        level="exploration", cfgs=std_cfgs,
+        rule=RULE_STAR + "plus Threefish (key, tweak, block) triples through byte and u64 entry points, BelT wide-block (length, data, key) "
+             "triples and full block-domain sweeps of RC5-8 (RC5-16 / Speck32 in the thorough tier); each case checks D(E(b))==b and "
+             "E(D(b))==b, also across Enc-only/Dec-only/converted instance pairs; a case is non-trivial when E(b) != b.",
+        assumptions=ASSUME_STD),
+    "C02": dict(
+        level="model_checking", cfgs=lambda t: std_cfgs(t, n0_crates="aes", sens="aes"),
+        rule=RULE_STAR + "each case is the trace new_from_slice(key) -> encrypt_block/decrypt_block(block) (plus batches of 3 and 43 blocks per key) "
+             "executed on the implementation and on the FIPS-197 reference model (validated against OpenSSL and libgcrypt); non-trivial when the model output differs from the input.",
+        assumptions=ASSUME_STD + ["the FIPS-197 reference model (computed S-box, validated against OpenSSL/libgcrypt/FIPS vectors by refcheck)"]),
+    "C03": dict(
+        level="exploration", cfgs=cfgs_c03, post=post_c03, build_failure_is_verdict=True,
+        rule="observation streams (E(b), D(b) for every star case, batches of 3/22/43 blocks per key, hazmat calls) of the aes, kuznyechik and serpent "
+             "types are produced in every native configuration and feature set and compared chunk by chunk (64 keys per chunk) against the default "
+             "configuration; every observation is a distinct (type, key, input) case; all are non-trivial (a permutation output).",
+        assumptions=ASSUME_STD + ["hash comparison per chunk (64-bit) with full re-dump of differing chunks"]),
+    "C04": dict(
+        level="exploration", cfgs=std_cfgs,
+        rule="cases = (cipher type, key, direction, call shape in 7 shapes, n blocks, input/output byte offsets, content class) executed inside "
+             "canary-filled allocations; each checks out[i]==single(in[i]), input untouched, canaries intact, and b2b length mismatch is an error "
+             "that writes nothing; non-trivial when n>0 and the output differs from the input.",
+        bound={"quick": "n in 0..=48, 5 offset pairs, contents {distinct, equal, differ-in-byte-j}", "thorough": "n in 0..=130, all 256 offset pairs"},
+        assumptions=ASSUME_STD),
+    "C05": dict(
+        level="model_checking", cfgs=only_n0,
+        rule=RULE_STAR + "DES adds all keys/blocks of Hamming weight <=2 (<=3 thorough) and complements, all 256 parity patterns per key, complementation and "
+             "EDE/EEE key relations; each trace is executed on the implementation and on the FIPS 46-3 table-driven model (validated against OpenSSL/libgcrypt).",
+        assumptions=[LEVEL_NOTE_DATA, "FIPS 46-3 reference model validated by refcheck"]),
+    "C06": dict(level="model_checking", cfgs=only_n0,
+                rule=RULE_STAR + "each trace new_from_slice(key) -> encrypt/decrypt(block) is executed on the implementation and on the RFC 5794 / RFC 3713 / GB/T 32907 models (validated against OpenSSL/libgcrypt).",
+                assumptions=[LEVEL_NOTE_DATA, "reference models validated by refcheck"]),
+    "C07": dict(level="model_checking", cfgs=lambda t: std_cfgs(t, n0_crates="kuznyechik,magma,belt-block", sens="kuznyechik"),
+                rule=RULE_STAR + "Kuznyechik (3 types, every native back end), Magma + 5 bundled + 8 harness-defined S-box sets, BeltBlock and belt_block_raw; every trace runs on the "
+                     "implementation and on the GOST R 34.12-2015 / GOST 28147-89 / STB 34.101.31 models.",
+                assumptions=[LEVEL_NOTE_DATA, "Kuznyechik and BelT models are anchored by the standards' vectors only; GOST 28147-89 model validated against libgcrypt for all bundled sets"]),
+    "C08": dict(level="model_checking", cfgs=lambda t: std_cfgs(t, n0_crates="serpent,twofish,cast6", sens="serpent"),
+                rule=RULE_STAR + "Serpent over all 17 key lengths (unrolled and looped builds), Twofish 3 sizes, CAST-256 5 sizes; every trace runs on the implementation and on the reference model.",
+                assumptions=[LEVEL_NOTE_DATA, "Serpent/Twofish models validated against nettle+libgcrypt; CAST-256 anchored by RFC 2612 vectors, S-boxes shared with the OpenSSL-validated CAST-128 model"]),
+    "C09": dict(level="model_checking", cfgs=only_n0,
+                rule=RULE_STAR + "Blowfish over all 53 key lengths (BE and LE), CAST5 over all 12, IDEA, XTEA, RC2 from slice, plus the complete RC2 (key length 1..128) x (effective bits 1..1024) grid through "
+                     "new_with_eff_key_len; every trace runs on the implementation and on the reference model.",
+                assumptions=[LEVEL_NOTE_DATA, "models validated against OpenSSL (BF, CAST5, RC2 incl. effective bits) and libgcrypt (IDEA); XTEA anchored by published vectors"]),
+    "C10": dict(level="model_checking", cfgs=only_n0,
+                rule=RULE_STAR + "229 RC5<W,R,B> instantiations (5 word sizes x 5 round counts x 9 key lengths incl. 0, plus the published triples), 10 Speck types, Threefish 3 sizes incl. (key, tweak, block) "
+                     "triples through byte and u64 entry points, GIFT-128; every trace runs on the implementation and on the reference model.",
+                assumptions=[LEVEL_NOTE_DATA, "RC5/Speck/Threefish/GIFT models are anchored by published vectors only (no third-party implementation on the image)",
+                             "RC5 type-level space sampled by the stated 229-type grid"]),
+    "C11": dict(level="exploration", cfgs=std_cfgs,
+                rule="cases = (cipher type, slice length in 0..=300,1024,4096, two key fillings) for the accepted-length contract, plus constructor-equivalence cases (new vs new_from_slice, "
+                     "Rc2 slice vs eff 8*len for all 128 lengths, CAST5/CAST6/Serpent short vs padded key, Threefish new vs zero tweak) compared on probe blocks; non-trivial = accepted lengths, their neighbours and every equivalence case.",
+                assumptions=[LEVEL_NOTE_DATA]),
+    "C13": dict(level="model_checking", cfgs=std_cfgs,
+                rule="cases = (type, key): AES upper half zero/every single upper bit/every upper byte value x lower-half alphabet; DES 64 listed keys x 256 parity patterns, every listed key with each non-parity bit flipped, generic keys; "
+                     "Triple-DES bundles from listed/generic/parity-flipped parts; every other type on generic keys. Each case evaluates weak_key_test and new_checked on the implementation and the statement's predicate (model); "
+                     "distinct = distinct (type,key); non-trivial = AES/DES-family cases and every positive.",
+                assumptions=["NIST weak-key list validated against libgcrypt's detector and the reference key schedule (refcheck)"]),
+    "C16": dict(level="exploration", cfgs=lambda t: std_cfgs(t, feat_only=True),
+                rule="cases = (type, construction route in {new, new_from_slice, clone, clone of clone, clone then drop original, From<Enc> by value, From<&Enc>, clone of converted}, key) built in canary-filled storage with 3 canaries; "
+                     "a byte is key-dependent if stable across canaries and different between keys; after drop_in_place every such byte that is live (flipping it changes behaviour) must read 0; non-trivial = cases of subjects with at least one key-dependent byte.",
+                assumptions=["dead storage (padding, inactive union arm) is identified by behavioural liveness and ignored", "zeroize feature on (feature-off builds are not applicable)"]),
+    "C17": dict(level="model_checking", cfgs=lambda t: std_cfgs(t, n0_crates="aes", sens="aes", feat_only=True),
+                rule="cases = hazmat calls: cipher_round / equiv_inv_cipher_round on the (block, round key) star, mix_columns / inv_mix_columns on the block alphabet, *_par on 8-tuples (all different; differ in lane j only); "
+                     "each executed on the implementation (AES-NI, detection-off software path, fixslice64, compact) and on the FIPS-197 round model.",
+                assumptions=[LEVEL_NOTE_DATA, "FIPS-197 round functions of the reference model validated against Appendix C and OpenSSL chaining"]),
+    "C18": dict(level="model_checking", cfgs=only_n0,
+                rule="cases = (length, data pattern, key) for belt_wblock_enc and belt_wblock_dec: every length 0..=160 (0..=1024 thorough) + 4096 (+4095, 65537); lengths < 32 must return the error and leave the buffer untouched; "
+                     "each executed on the implementation and on the STB 34.101.31 model.",
+                assumptions=["BelT model anchored by the standard's vectors only"]),
+    "C19": dict(level="exploration", cfgs=std_cfgs,
+                rule="cases = (type, key) Debug texts compared with the text for the zero key and with the type's accepted names, plus all pairs of types for AlgorithmName distinctness and the RC5 parameter rule; non-trivial = every non-zero-key case and every pair.",
+                assumptions=[]),
+    "C20": dict(level="exploration", cfgs=cfgs_c20, post=post_c20,
+                rule="every star case E(b)/D(b), batches of 3/22/43 blocks, the RC2 eff-bits grid, BelT wide-block lengths, Threefish tweak triples and hazmat calls are executed under catch_unwind in the vdev (overflow checks + debug assertions) and vrel builds of "
+                     "every configuration; a panic/abort is a violation, and the observation streams of the two profiles are compared chunk by chunk.",
+                assumptions=ASSUME_STD),
 }
 
 
@@ -138,9 +308,8 @@ def run_property(pid, tier):
     )
     if spec["level"] == "model_checking":
         cov.update(states=ev, transitions=calls, traces_validated_against_impl=refc)
-    extra_cov = spec.get("coverage_extra")
-    if extra_cov:
-        cov.update(extra_cov(results))
+    if POST_INFO:
+        cov.update(POST_INFO)
     notes = []
     for _, r in results:
         for nn in r.get("notes", []):
@@ -180,3 +349,11 @@ def replay(path):
     import subprocess
     r = subprocess.run([cfg.binary, "replay", path], env=cfg.env())
     return r.returncode
+
+
+NOT_YET = {
+    "C12": "history exploration (stateright) under construction",
+    "C14": "eksblowfish history exploration (stateright) under construction",
+    "C15": "history (stateright) and schedule (loom) exploration under construction",
+}
+EXTRA_ENGINES = []
